@@ -77,6 +77,14 @@ def _mc(scratch: Path, inst: Instance, refetch: bool, liveness: bool, workers: i
     cfg = tlc.cfg_text(spec="Spec", constants=sub, invariants=ALL_INV, properties=["Terminates"] if liveness else None)
     d = tlc.stage(scratch, f"mc_{inst.name}_{int(refetch)}", ["Cascade"], {"MC.tla": mod, "MC.cfg": cfg})
     r = tlc.check(d, "MC", workers=workers, coverage=True, timeout=timeout, light=not (len(inst.outs) >= 4 and len(inst.hosts) >= 2))
+    if "*** TIMEOUT ***" in r.out and not [v for v in r.violated if not v.startswith("MACHINERY")]:
+        # an instance too large for the time budget: what was explored is reported, nothing is concluded from it
+        m = None
+        for m in __import__("re").finditer(r"(\d[\d,]*) states generated.*?(\d[\d,]*) distinct states found", r.out):
+            pass
+        gen, dist = (int(m.group(1).replace(",", "")), int(m.group(2).replace(",", ""))) if m else (0, 0)
+        return {"instance": inst.name, "generated": gen, "distinct": dist, "depth": 0, "violated": [], "coverage": {},
+                "wall": round(r.wall, 1), "cmd": r.cmd, "trace": "", "incomplete": True}
     tlc.require_clean(r, f"model checking {inst.name}")
     return {"instance": inst.name, "generated": r.generated, "distinct": r.distinct, "depth": r.depth,
             "violated": r.violated, "coverage": r.coverage, "wall": round(r.wall, 1), "cmd": r.cmd,
@@ -137,7 +145,7 @@ def run_engine(ctx: Ctx) -> dict:
 
     def job_mc(inst):
         big = len(inst.outs) >= 4 and len(inst.hosts) >= 3
-        return _mc(scratch, inst, False, not big, mc_workers, 1500 if not ctx.quick else 600)
+        return _mc(scratch, inst, False, not big, mc_workers, 420 if not ctx.quick else 600)
 
     def job_tr(args):
         inst, hs, none = args
@@ -157,8 +165,11 @@ def run_engine(ctx: Ctx) -> dict:
                 "events": sum(len(t) for t in traces),
                 "ends": _count(t[-1]["ev"] for t in traces if t), "bad": bad, "sample": sample}
 
+    # model checking: in the thorough tier the largest shapes (4 tasks on 3 hosts or 2x2) are covered by traces only
+    mc_insts = insts if ctx.quick else [i for i in insts if not (len(i.outs) >= 4 and (len(i.hosts) >= 3 or
+                                                                  (len(i.hosts) == 2 and max(len(w) for w in i.hosts.values()) >= 2)))]
     with ThreadPoolExecutor(max_workers=JVM_SLOTS) as tp:
-        res["mc"] = list(tp.map(job_mc, insts))
+        res["mc"] = list(tp.map(job_mc, mc_insts))
     ctx.log(f"cascade engine: model checking of {len(insts)} instances done in {time.time()-t0:.0f}s")
     t1 = time.time()
     jobs = [(i, hs, "") for i in insts for hs in hashseeds]
@@ -200,6 +211,7 @@ def report(ctx: Ctx, pid: str) -> None:
     ctx.coverage.update({
         "states": states, "transitions": trans,
         "model_instances": len(res["mc"]),
+        "model_instances_incomplete": [m["instance"] for m in res["mc"] if m.get("incomplete")],
         "model_invariants_checked": sorted(mine_inv - {"Temporal", "Deadlock"}),
         "instances": res["instances"][:40],
         "traces_validated_against_impl": sum(t["n"] for t in res["traces"]),
